@@ -405,8 +405,8 @@ pub fn run(ctx: &mut Ctx) -> Result<(), Violation> {
     ctx.rule = "Positive: every message length 0..=L (+1 KiB, 64 KiB) x K seeded seeds (+ RFC 8032 §7.1 seeds) through crypto_sign_detached / crypto_sign / crypto_sign_open / SigningKeyPair::{from_seed,from_slices,sign,sign_with_defaults} / SignedMessage::{to_vec,to_bytes,into_parts,verify} / crypto_sign_final_create / IncrementalSigner; oracle: bytes == libsodium (== big-integer RFC 8032 model on a subset), deterministic, verifies in both libraries and only in its own mode. Negative: from valid (pk,msg,sig) in both modes: every single-bit flip of signature (512) and public key (256) and message on selected messages (a seeded subset elsewhere), message extension/truncation, S+kL for every k with S+kL < 2^256, top bits of S forced, S = L, L-1; all 14 small-order encodings and 38 non-canonical encodings as R and as pk (with S = 0 and honest S); model-constructed mixed-order public keys A+T and commitments R+T with several messages each (about 1 in ord(T) must be ACCEPTED: guards against over-strict verification). Oracle: accept/reject of every dryoc verify form == libsodium's. Non-trivial: any negative-family member; distinct = hash(pk,msg,sig,mode).".into();
     ctx.assumptions = vec!["libsodium 1.0.18's decision is the reference for strictness".into(), "RFC 8032 BigUint model pinned by §7.1 and §7.3 vectors".into()];
     let seed = ctx.seed;
-    let l = ctx.tier.pick(160usize, 600);
-    let k = ctx.tier.pick(1usize, 8);
+    let l = ctx.tier.pick(320usize, 800);
+    let k = ctx.tier.pick(2usize, 8);
     let mut pos: Vec<PosCase> = vec![];
     let mut lens: Vec<usize> = (0..=l).collect();
     lens.extend_from_slice(&[1024, 65536]);
@@ -435,8 +435,8 @@ pub fn run(ctx: &mut Ctx) -> Result<(), Violation> {
         check_pos(c).map_err(|m| Violation::new("C06", "positive", m, serde_json::to_value(c).unwrap()))
     })?;
     // negative family
-    let n_full = ctx.tier.pick(8usize, 200);
-    let n_sub = ctx.tier.pick(150usize, 1500);
+    let n_full = ctx.tier.pick(32usize, 400);
+    let n_sub = ctx.tier.pick(800usize, 6000);
     let groups: Vec<usize> = (0..n_full + n_sub).collect();
     ctx.par_each(&groups, |_, &gi, ev| {
         let mut f = Fill::new(seed, &format!("C06:neg:{gi}"));
@@ -456,7 +456,7 @@ pub fn run(ctx: &mut Ctx) -> Result<(), Violation> {
         Ok(())
     })?;
     let mut f = ctx.fill("tables");
-    let table = torsion_and_tables(&mut f, ctx.tier.pick(24, 240));
+    let table = torsion_and_tables(&mut f, ctx.tier.pick(64, 480));
     ctx.par_each(&table, |_, c, ev| {
         ev.eval(1);
         let accepted = check_neg(c).map_err(|m| Violation::new("C06", "negative", m, serde_json::to_value(c).unwrap()))?;
